@@ -558,3 +558,49 @@ Proof. induction a as [|x a IH]; cbn; [reflexivity|assumption]. Qed.
 
 Lemma firstn_length_app {T} (a b : list T) : firstn (length a) (a ++ b) = a.
 Proof. induction a as [|x a IH]; cbn; [reflexivity|]. rewrite IH. reflexivity. Qed.
+
+(* ------------------------------------------------------------------ reading a body of n bytes *)
+Lemma take_width_exact cw t rest :
+  Forall (fun c => (1 <= cw c)%nat) t ->
+  take_width cw (text_width cw t) (t ++ rest) = (t, rest).
+Proof.
+  induction 1 as [|c t Hc Ht IH]; cbn [text_width app].
+  - destruct rest; reflexivity.
+  - cbn [take_width]. destruct (cw c + text_width cw t)%nat eqn:E; [lia|].
+    rewrite <- E. replace (cw c + text_width cw t - cw c)%nat with (text_width cw t) by lia.
+    rewrite IH. reflexivity.
+Qed.
+
+Lemma text_width_bound cw t : sane_widths cw t -> (length t <= text_width cw t <= 4 * length t)%nat.
+Proof. induction 1 as [|c t Hc Ht IH]; cbn [text_width length]; lia. Qed.
+
+Lemma read_body_width cw t rest :
+  sane_widths cw t ->
+  read_body cw (Some (Z.of_nat (text_width cw t))) (t ++ rest) = (t, rest).
+Proof.
+  intros Hs. unfold read_body. pose proof (text_width_bound cw t Hs) as B.
+  destruct (Z.ltb_spec (Z.of_nat (text_width cw t)) 0); [lia|]. cbn [orb].
+  destruct (Z.ltb_spec (4 * Z.of_nat (length (t ++ rest))) (Z.of_nat (text_width cw t))) as [Hlt|_].
+  - rewrite app_length in Hlt. lia.
+  - rewrite Nat2Z.id. apply take_width_exact.
+    eapply Forall_impl; [|exact Hs]. intros c Hc. cbn beta in Hc. lia.
+Qed.
+
+Lemma one_byte_width t : text_width one_byte t = length t /\ sane_widths one_byte t.
+Proof.
+  induction t as [|c t [IH1 IH2]]; [split; [reflexivity|constructor]|].
+  split; [cbn; rewrite IH1; reflexivity|constructor; [unfold one_byte; lia|assumption]].
+Qed.
+
+(* binary file: exactly the body, whatever follows *)
+Lemma read_body_exact (body extra : bytes) :
+  read_body one_byte (Some (Z.of_nat (length body))) (body ++ extra) = (body, extra).
+Proof.
+  destruct (one_byte_width body) as [E S]. rewrite <- E. apply read_body_width. assumption.
+Qed.
+
+Lemma utf8_width_sane t : sane_widths utf8_width t.
+Proof.
+  apply Forall_forall. intros c _. unfold utf8_width.
+  destruct (c <? 128); [lia|]. destruct (c <? 2048); [lia|]. destruct (c <? 65536); lia.
+Qed.
